@@ -369,6 +369,12 @@ func runC08Case(cc C08Case) (*Fail, c08Stats, error) {
 			stt.skipped = "no snapshot"
 			return nil, stt, nil
 		}
+		if cc.Punch && !sn.User {
+			// nothing is promised about reverting to an automatic snapshot once space
+			// reclamation has thinned it (the preload of the victim's open does): this
+			// case runs without reclamation
+			cc.Punch, vop.Punch = false, false
+		}
 		vop.Name = sn.Disk
 	case "resize":
 		vop.N = cc.Op.N * Blk
